@@ -209,6 +209,126 @@ def run(run):
             run.violation('hash/concurrent', 'a hash computed while other '
                           'threads were computing hashes is wrong (shared '
                           'state inside the function)', problems[0])
+    # ---- the process environment ------------------------------------------------
+    # (locale, UTF-8 mode: the server id is hashed as UTF-8 whatever the
+    # process's preferred encoding is)
+    if run.shard == 0:
+        import json as _json
+        import os as _os
+        import subprocess
+        import sys as _sys
+        from .. import core as _core
+        from . import c17_env
+        envs = {'inherited': {},
+                'plain C locale, UTF-8 mode off': {
+                    'LC_ALL': 'C', 'LANG': 'C', 'PYTHONUTF8': '0',
+                    'PYTHONCOERCECLOCALE': '0', 'PYTHONIOENCODING': 'utf-8'},
+                'Latin-1 style locale': {
+                    'LC_ALL': 'POSIX', 'PYTHONUTF8': '0',
+                    'PYTHONCOERCECLOCALE': '0', 'PYTHONIOENCODING': 'utf-8'}}
+        for label, extra in envs.items():
+            env = dict(_os.environ)
+            env.update(extra)
+            pr = subprocess.run([_sys.executable, '-m', 'vf.checks.c17_env'],
+                                cwd=_core.VERIF_DIR, env=env, timeout=120,
+                                stdout=subprocess.PIPE, stderr=subprocess.PIPE)
+            if pr.returncode:
+                run.inconclusive_because('environment probe (%s) failed: %s'
+                                         % (label, pr.stderr.decode()[-200:]))
+                continue
+            got = _json.loads(pr.stdout.decode('utf-8'))
+            enc = got.pop('__encoding__')
+            run.seen('process_encodings', enc)
+            for sid in c17_env.IDS:
+                run.count('hashes_in_other_environments')
+                exp = javahash.server_hash(sid, bytes(range(16)), b'key' * 30)
+                if got.get(sid) != exp:
+                    run.violation('hash/depends-on-process-environment',
+                                  'the hash of a server id differs in a '
+                                  'process with another locale / encoding '
+                                  'set-up', {'environment': label,
+                                             'preferred_encoding': enc,
+                                             'server_id': sid,
+                                             'got': got.get(sid),
+                                             'expected': exp})
+                    break
+    # ---- the hash as the login reactor sends it ---------------------------------
+    # The real LoginReactor.react is given encryption requests (several in a
+    # row on one reactor - a re-keying proxy - each with its own server id
+    # and key); the session service (a stub token) must be told, every time,
+    # the hash of *that* request's id, the secret the client generated for it
+    # (recovered from its response with the private key) and that key.
+    if run.shard == 0:
+        import threading
+        from cryptography.hazmat.primitives import serialization as _ser
+        from cryptography.hazmat.primitives.asymmetric import rsa as _rsa
+        from cryptography.hazmat.primitives.asymmetric.padding import PKCS1v15
+        from minecraft.networking import connection as C
+        from minecraft.networking.packets import clientbound as _cb
+
+        class TokenStub(object):
+            def __init__(self):
+                self.joined = []
+
+            def join(self, server_hash):
+                self.joined.append(server_hash)
+                return True
+
+        class DummyTransport(object):
+            def send(self, data):
+                pass
+
+            def read(self, n=-1):
+                return b''
+
+            def fileno(self):
+                return -1
+
+        class ConnStub(object):
+            def __init__(self, pv):
+                self.context = C.ConnectionContext(protocol_version=pv)
+                self.auth_token = TokenStub()
+                self.socket, self.file_object = DummyTransport(), \
+                    DummyTransport()
+                self._write_lock = threading.RLock()
+                self.written = []
+                self.connected = True
+
+            def write_packet(self, packet, force=False):
+                self.written.append(packet)
+        keys = [_rsa.generate_private_key(public_exponent=65537,
+                                          key_size=1024) for _ in range(2)]
+        ders = [k.public_key().public_bytes(
+            _ser.Encoding.DER, _ser.PublicFormat.SubjectPublicKeyInfo)
+            for k in keys]
+        for pv in (757, 340, 47):
+            conn_ = ConnStub(pv)
+            reactor = C.LoginReactor(conn_)
+            for step, (sid, ki) in enumerate((('first', 0), ('zweite-é', 1),
+                                              ('', 0), ('first', 1))):
+                req = _cb.login.EncryptionRequestPacket(conn_.context)
+                req.server_id, req.public_key = sid, ders[ki]
+                req.verify_token = b'tok%d' % step
+                n_j, n_w = len(conn_.auth_token.joined), len(conn_.written)
+                try:
+                    reactor.react(req)
+                    resp = conn_.written[n_w]
+                    secret = keys[ki].decrypt(resp.shared_secret, PKCS1v15())
+                    exp = javahash.server_hash(sid, secret, ders[ki])
+                    got = conn_.auth_token.joined[n_j:]
+                except Exception as e:
+                    exp, got = None, repr(e)
+                run.count('reactor_joins_checked')
+                run.case(('reactor-join', pv, step))
+                if got != [exp]:
+                    run.violation('hash/as-sent-by-the-login-reactor',
+                                  'the hash handed to the session service for '
+                                  'an encryption request is not the hash of '
+                                  'that request\'s server id, secret and key',
+                                  {'pv': pv, 'request_no': step + 1,
+                                   'server_id': sid, 'got': got,
+                                   'expected': exp})
+                    break
     # ---- keys as a server may encode them ------------------------------------
     # The hash is over the key bytes *as received*.  Real and well-formed keys
     # in the canonical SubjectPublicKeyInfo form, and loadable variants of the
@@ -255,5 +375,6 @@ def run(run):
     run.require('calling_styles', 5)
     if run.shard == 0:
         run.require('hashes_with_debug_logging', 100)
+        run.require('reactor_joins_checked', 6)
         run.require('concurrent_hashes', 1000)
     run.require('key_encodings_checked', 10)
